@@ -16,6 +16,7 @@ var registry = map[string]core.Harness{
 	"C07": C07{},
 	"C10": C10{},
 	"C41": C41{},
+	"C42": C42{},
 }
 
 func TestSim(t *testing.T) { core.WorkerMain(t, registry) }
